@@ -457,6 +457,14 @@ func (c *Ctx) unaryTensorOp(op string, fn *ssa.Function, a []Value) Value {
 			res, err = tensor.Exp(s.twin, fo.native...)
 		case "Tanh":
 			res, err = tensor.Tanh(s.twin, fo.native...)
+		case "Inv":
+			res, err = tensor.Inv(s.twin, fo.native...)
+		case "Square":
+			res, err = tensor.Square(s.twin, fo.native...)
+		case "Log":
+			res, err = tensor.Log(s.twin, fo.native...)
+		case "Sqrt":
+			res, err = tensor.Sqrt(s.twin, fo.native...)
 		}
 	}); p != nil {
 		panic(p)
@@ -492,6 +500,29 @@ func (c *Ctx) unaryTensorOp(op string, fn *ssa.Function, a []Value) Value {
 			out[i] = c.mathUF("exp", x)
 		case "Tanh":
 			out[i] = c.mathUF("tanh", x)
+		case "Log":
+			out[i] = c.mathUF("log", x)
+		case "Sqrt":
+			out[i] = c.mathUF("sqrt", x)
+		case "Inv":
+			// gorgonia: a[i] = 1 / a[i]
+			switch x.Sort.K {
+			case smt.KReal:
+				out[i] = st.RDiv(st.RealI(1), x)
+			case smt.KFP32, smt.KFP64:
+				out[i] = st.FPDiv(c.one(x.Sort), x)
+			default:
+				panic(c.abort("Inv of integer tensor (native integer division by zero panics): unmodelled"))
+			}
+		case "Square":
+			switch x.Sort.K {
+			case smt.KBV:
+				out[i] = st.BVMul(x, x)
+			case smt.KReal:
+				out[i] = st.RMul(x, x)
+			default:
+				out[i] = st.FPMul(x, x)
+			}
 		}
 	}
 	return c.retTensorErr(c.finishResult(res, fo, s.dt, out), nil, fn.Signature)
@@ -679,7 +710,7 @@ func (c *Ctx) registerArith(tab map[string]intrinsicFn) {
 		op := op
 		tab[P+op] = func(c *Ctx, fn *ssa.Function, a []Value) Value { return c.binaryTensorOp(op, fn, a) }
 	}
-	for _, op := range []string{"Neg", "Abs", "Exp", "Tanh"} {
+	for _, op := range []string{"Neg", "Abs", "Exp", "Tanh", "Inv", "Square", "Log", "Sqrt"} {
 		op := op
 		tab[P+op] = func(c *Ctx, fn *ssa.Function, a []Value) Value { return c.unaryTensorOp(op, fn, a) }
 	}
